@@ -49,15 +49,30 @@ def check(ctx):
 
         def run(it, w, K=K):
             o = it.call(K, [Sym("port", "num")], {})
-            return o, it.call(it.getattr(o, "getDistance"), [], {})
+            for k_, v_ in list(o.fields.items()):
+                if isinstance(v_, (int, F)) and not isinstance(v_, bool):
+                    o.fields[k_] = Sym("prev_" + k_.lstrip("_"), "num", tag="prestate", uid=0)  # whatever an earlier call left behind
+            r_ = it.call(it.getattr(o, "getDistance"), [], {})
+            reads = [e.extra for e in it.trace if e.kind == "ext" and e.name.endswith("getVoltage") or e.kind == "ext" and e.name.endswith("getAverageVoltage")]
+            return o, r_, reads
 
         paths = fn.all_paths(ctx, run)
         ctx.add("paths", len(paths))
+        const_paths = []
         for p in paths:
             if p.outcome != "return":
                 ctx.fail("C17.O1", f"{K.name}.getDistance can raise {fn.exc_name(p.value) if p.outcome == 'raise' else p.value}", site=site, key=f"C17.O1|{K.name}|raise")
                 continue
-            obj, R = p.value
+            obj, R, reads = p.value
+            hist = [s for s in (fn.syms_in(R) if not isinstance(R, (int, F)) else []) if s.tag == "prestate"]
+            if isinstance(R, Sym) and R.tag == "prestate":
+                hist = [R]
+            if hist:
+                ctx.fail("C17.O2", f"{K.name}.getDistance returns a value that depends on {[h.name for h in hist]}, i.e. on what an earlier call stored: the reading is no longer a (bounded, monotone) function of the current voltage", site=site, key=f"C17.O2|{K.name}|history")
+                continue
+            if isinstance(R, (int, F)):
+                const_paths.append((p, R, reads))
+                continue
             volts = [s for s in fn.syms_in(R) if isinstance(s.tag, tuple) and s.tag[0] == "ext"]
             if len(volts) != 1:
                 raise AnalysisError(f"{K.name}.getDistance: cannot identify the voltage reading in {R!r}")
@@ -86,7 +101,7 @@ def check(ctx):
             ctx.require(law in LAWS, "C17.O4", f"{K.name}: law {float(a)} * v^{float(b)}", f"{K.name}.getDistance implements {float(a)} * v^{float(b)}, which is none of the datasheet laws 62.28*v^-1.092, 26.449*v^-1.226, 12.84*v^-0.9824", site=site, key=f"C17.O4|{K.name}|law")
             ctx.require(okX, "C17.O4", f"{K.name}: the law is applied to max(voltage, eps) with 0 < eps <= 1 mV", f"{K.name}.getDistance applies its power law to {X!r} instead of the (floored) voltage", site=site, key=f"C17.O4|{K.name}|arg")
             if law in LAWS:
-                if law in found:
+                if law in found and found[law][0] is not K:
                     ctx.fail("C17.O4", f"law {law} implemented by both {found[law][0].name} and {K.name}", site=site, key=f"C17.O4|dup|{K.name}")
                 found[law] = (K, cf, obj)
                 lo_d, hi_d = LAWS[law]
@@ -96,6 +111,19 @@ def check(ctx):
             m = ea.monotone(R, V, env)
             ctx.require(m in ("dec", "const"), "C17.O3", f"{K.name}: reading is non-increasing in the voltage", f"{K.name}.getDistance is not provably non-increasing in the voltage (analysis result: {m})", site=site, key=f"C17.O3|{K.name}")
             ctx.sample({"driver": K.name, "expression": repr(R), "interval": [str(x) for x in ea.interval(R, env)], "monotone": m})
+        # paths that return a literal (special-cased voltage ranges): must be the clamp limit that the law approaches there
+        mylaw = next((lw for lw, (Kx, _, _) in found.items() if Kx is K), None)
+        for p, c, reads in const_paths:
+            if mylaw is None:
+                ctx.fail("C17.O4", f"{K.name}.getDistance returns the literal {float(c)} on some path and implements no datasheet law", site=site, key=f"C17.O4|{K.name}|const")
+                continue
+            lo_d, hi_d = LAWS[mylaw]
+            vs = [r.attrs.get("num") for r in reads if hasattr(r, "attrs") and r.attrs.get("num") is not None]
+            lower = upper = None
+            if vs:
+                lower, upper = bounds_on(vs[0], p.path)
+            good = (c == hi_d and upper is not None and lower is None) or (c == lo_d and lower is not None and upper is None)
+            ctx.require(good, "C17.O3", f"{K.name}: literal {float(c)} returned only at the matching end of the voltage range", f"{K.name}.getDistance returns the literal {float(c)} for voltages in ({lower}, {upper}): not the clamp limit the (non-increasing) reading has there", site=site, key=f"C17.O3|{K.name}|const")
     ctx.require(len(found) == 3, "C17.O4", "each of the three datasheet laws is implemented by one driver", f"only {len(found)} of the three datasheet laws are implemented", site=(md.filename, 1, "module"), key="C17.O4|count")
     # ---- simulation twins
     ms = fn.module(ctx, SIM)
